@@ -2,7 +2,7 @@
    Statements only; proofs live in C03/Proofs.v and C03/Table.v.  Model: C03/Model.v (access scripts
    transcribing psutil/_pslinux.py and psutil/__init__.py), fault model and allowed outcomes:
    C03/Spec.v, guard analysis: C03/Guard.v, the harness's concrete worlds: C03/Run.v. *)
-From PV Require Import Base.Prelude C03.Model C03.Spec C03.Guard C03.Proofs C03.Run C03.Table C03.Native C03.NativeProofs.
+From PV Require Import Base.Prelude C03.Model C03.Spec C03.Guard C03.Proofs C03.Run C03.Table C03.Native C03.NativeProofs C03.History.
 
 (* soundness of the guard for ALL worlds of the fault model: any base answers respecting [opt], any vanish index of
    the process -- whole directory or half-removed (only the entries below /proc/<pid> go, issue 2418) --, any
@@ -85,6 +85,25 @@ Theorem C03_worlds_in_fault_model : forall y kind v h d ov ln gu, (kind <= 3)%na
   base_ok opt_half (mk_world y kind v h d ov ln gu).
 Proof. exact base_ok_worlds_half. Qed.
 Print Assumptions C03_worlds_in_fault_model.
+
+(* ---- objects with a history ([h_*] scripts: nothing assumed about _gone / _pid_reused; W_REUSED = the pid now
+        belongs to another process).  Once the object knows that its process is gone or its pid recycled
+        (is_running() said so), parent() / parents() / children() / children(recursive) / ppid() raise NoSuchProcess
+        before anything else -- in EVERY world: whatever the cached lowest pid (W_ISLOWEST), boot time or caches *)
+Theorem C03_knows_then_nsp : forall w p, In p guarded_calls ->
+  forall s, knows_gone s -> s_cache s = false -> fst (run w p s) = RExc (XNSP Self).
+Proof. exact knows_then_nsp. Qed.
+Print Assumptions C03_knows_then_nsp.
+(* is_running() on a vanished process (directory removed or half-removed) answers and marks the object ... *)
+Theorem C03_is_running_marks_gone : forall w s, gone w s = true ->
+  fst (run w h_is_running s) = RVal /\ knows_gone (snd (run w h_is_running s)).
+Proof. exact is_running_marks_gone. Qed.
+Print Assumptions C03_is_running_marks_gone.
+(* ... hence the history (vanish ; is_running() -> False ; guarded call) ends in NoSuchProcess for every pid *)
+Theorem C03_gone_is_running_then_nsp : forall w p, In p guarded_calls -> forall s, gone w s = true ->
+  map fst (run_hist w [h_is_running; p] s) = [RVal; RExc (XNSP Self)].
+Proof. exact gone_is_running_then_nsp. Qed.
+Print Assumptions C03_gone_is_running_then_nsp.
 
 (* ---- the native part behind nice(): psutil_posix_getpriority with errno explicit (C03/Native.v).  For every kernel
         answer and EVERY errno left by earlier, unrelated calls of the thread the query answers what the target alone
